@@ -1,4 +1,4 @@
-import CookModel.Syntax.Blocks
+import CookModel.Analysis.Collector
 /- Canonical rendering of parser events for the line protocol (mirrored by harness/src/render.rs). -/
 namespace Cook.Driver
 open Cook
@@ -51,5 +51,65 @@ def rEvents (r : Array (Ev α) × Option String) : String :=
   match r.2 with
   | some site => s!"PANIC {site}"
   | none => if r.1.isEmpty then "<none>" else " | ".intercalate (r.1.toList.map rEv)
+
+end Cook.Driver
+
+namespace Cook.Driver
+open Cook
+variable {α : Type} [Arith α]
+
+def rStr (s : Str) : String := if s.isEmpty then "''" else rCps s
+def rSValue : ScalableValue α → String
+  | .fixed v => s!"fixed:{rValue v}"
+  | .linear v => s!"linear:{rValue v}"
+def rSQuantity (q : Quantity (ScalableValue α)) : String := s!"{rSValue q.value}%{rOpt rStr q.unit}"
+def rItem : Item → String
+  | .text v => s!"t:{rStr v}"
+  | .ingredient i => s!"i:{i}"
+  | .cookware i => s!"c:{i}"
+  | .timer i => s!"m:{i}"
+  | .inlineQuantity i => s!"q:{i}"
+def rContent : Content → String
+  | .step s => s!"STEP({s.number};{",".intercalate (s.items.map rItem)})"
+  | .text t => s!"TEXT({rStr t})"
+def rSection (s : Section) : String := s!"SECT({rOpt rStr s.name};{",".intercalate (s.content.map rContent)})"
+def rRelation : ComponentRelation → String
+  | .definition rf b => s!"def[{",".intercalate (rf.map toString)}]{if b then "+" else "-"}"
+  | .reference t => s!"ref{t}"
+def rTarget : Option RefTarget → String
+  | none => "-" | some .ingredient => "ingredient" | some .step => "step" | some .section => "section"
+def rIngredient (i : Ingredient (ScalableValue α)) : String :=
+  s!"I({rStr i.name};{rOpt rStr i.alias};{rOpt rSQuantity i.quantity};{rOpt rStr i.note};" ++
+  s!"{rOpt (fun r : RecipeReference => rStr r.name ++ "/" ++ "/".intercalate (r.components.map rStr)) i.reference};" ++
+  s!"{rRelation i.relation.relation}>{rTarget i.relation.referenceTarget};{i.modifiers.bits})"
+def rCookware (c : Cookware (ScalableValue α)) : String :=
+  s!"C({rStr c.name};{rOpt rStr c.alias};{rOpt rSValue c.quantity};{rOpt rStr c.note};{rRelation c.relation};{c.modifiers.bits})"
+def rTimer (t : Timer (ScalableValue α)) : String := s!"M({rOpt rStr t.name};{rOpt rSQuantity t.quantity})"
+def rInline (q : Quantity (Value α)) : String := s!"IQ({rValue q.value}%{rOpt rStr q.unit})"
+def rSev : Sev → String | .error => "E" | .warning => "W"
+def rStage : Stage → String | .parse => "P" | .analysis => "A"
+def rDiagFull (d : Diag) : String := s!"{rSev d.sev}{rStage d.stage}{rDiag d}"
+
+/-- kinds that depend on external parts the model does not interpret (YAML, std-key checks) -/
+def externalKind (k : String) : Bool :=
+  k == "std-unsupported-value" || k == "time-overridden" || k == "time-overridden-fm" || k.startsWith "other:"
+
+def rCol (c : Col α) (withMeta : Bool) : String :=
+  "sections=[" ++ " ".intercalate (c.sections.map rSection) ++ "] ingredients=[" ++
+  " ".intercalate (c.ingredients.toList.map rIngredient) ++ "] cookware=[" ++
+  " ".intercalate (c.cookware.toList.map rCookware) ++ "] timers=[" ++
+  " ".intercalate (c.timers.toList.map rTimer) ++ "] inline=[" ++
+  " ".intercalate (c.inlineQ.toList.map rInline) ++ "]" ++
+  (if withMeta then " meta=[" ++ " ".intercalate (c.metaMap.map (fun p => rStr p.1 ++ "=" ++ rStr p.2)) ++ "]" else "")
+
+def rAnalysis (r : AnalysisResult α) (hasFrontMatter : Bool) : String :=
+  match r.panic with
+  | some p => s!"PANIC {p}"
+  | none =>
+    let ds := r.diags.toList.filter (fun d => !externalKind d.kind)
+    let dstr := "diags=[" ++ " ".intercalate (ds.map rDiagFull) ++ "]"
+    match r.output with
+    | none => s!"NOOUT {dstr}"
+    | some c => s!"OUT {rCol c (!hasFrontMatter)} {dstr}"
 
 end Cook.Driver
